@@ -59,6 +59,8 @@ def main():
     finally:
         sh(['git', '-C', '/repo', 'checkout', '--', '.'])
         sh(['git', '-C', '/repo', 'clean', '-fdq'])
+        # leave the harness binary built from the restored tree
+        sh(['cargo', 'build', '--offline'], cwd=os.path.join(ROOT, 'harness'))
     out = os.path.join(d, 'results.json')
     old = json.load(open(out)) if os.path.exists(out) else {}
     for p, v in results.items():
